@@ -14,8 +14,8 @@ Catalogs == << <<>>,
 D(n, v, m) == [name |-> n, version |-> v, max |-> m]
 ImportLists == << <<>>, <<D(Tn, 1, 2)>>, <<D(Tn, 2, 3)>>, <<D(Tn, 1, -1)>>, <<D(Tn, 1, 4)>>, <<D(Tn, 1, 1)>>,
                   <<D(Un, 1, 2)>>, <<D(Tn, 1, 2), D(Un, 1, 1)>>, <<D(Tn, 3, 0)>> >>
-SymLists == << <<>>, <<P>>, <<P, X>> >>
-Sids == <<0, 4, 9, 10, 11, 12, 13, 14>>
+SymLists == << <<>>, <<P>>, <<P, X>>, <<GapNull, P>>, <<P, GapInt, X>> >>
+Sids == <<0, 4, 9, 10, 11, 12, 13, 14, 15>>
 
 Items == << [k |-> "bvm"] >>
          \o FlattenSeq([i \in 1..Len(ImportLists) |-> [j \in 1..Len(SymLists) |->
